@@ -257,8 +257,7 @@ def replay(prop, path):
     """Re-run one replay file against the current tree; the same judge decides."""
     obj = json.load(open(path))
     driver = obj.get("driver")
-    run = core.Run(prop, "quick", 0)
-    vh = prepare()
+    vh = prepare()          # no core.Run here: a run object clears the property's replay files, a replay must keep them
     if driver == "game-trace":
         d = game.trace_dir(prop + "-replay")
         out = os.path.join(d, "replay.ndjson")
@@ -932,6 +931,25 @@ def c09(tier, seed):
     add(rnd.sample(fam_pos, min(len(fam_pos), 120 if quick else 600)), [1, 2, 3] if quick else [1, 2, 3, 4], 3)
     add(rnd.sample(late, min(len(late), 40 if quick else 250)), [1, 2, 3], 3)
     add(rnd.sample(early, min(len(early), 25 if quick else 150)), [1, 2], 3)
+    # window level: the windowed search as an interior node under arbitrary windows (null windows and wide ones around the
+    # static and the searched value, up to +-2600), on positions and on the positions after illegal pseudo-moves (king en prise)
+
+    def addwin(pos, depths, illegal, nwin=10):
+        for f, p in pos:
+            for dd in depths:
+                cases.append({"fen": f, "pre": p, "d": dd, "win": nwin, "illegal": illegal, "seed": rnd.randrange(1 << 30)})
+    nwin_cases = len(cases)
+    addwin([(f, []) for f in rnd.sample(term, min(len(term), 40 if quick else 300))], [0, 1, 2, 3], False)
+    addwin([(f, []) for f in rnd.sample(term, min(len(term), 40 if quick else 300))], [0, 1, 2], True)
+    addwin([(f, []) for f in srch.TINY], [0, 1, 2, 3], False)
+    addwin([(f, []) for f in gen.read_roots()], [0, 1, 2], False)
+    addwin([(f, []) for f in gen.read_roots()], [0, 1], True)
+    addwin(rnd.sample(fam_pos, min(len(fam_pos), 60 if quick else 400)), [0, 1, 2], False)
+    addwin(rnd.sample(fam_pos, min(len(fam_pos), 60 if quick else 400)), [0, 1, 2], True)
+    addwin(rnd.sample(late, min(len(late), 40 if quick else 250)), [0, 1, 2], False)
+    addwin(rnd.sample(late, min(len(late), 40 if quick else 250)), [0, 1, 2], True)
+    addwin(rnd.sample(early, min(len(early), 25 if quick else 150)), [0, 1], True)
+    nwin_cases = len(cases) - nwin_cases
     rnd.shuffle(cases)
     chunks = [cases[i::core.NPROC] for i in range(core.NPROC)]
 
@@ -951,6 +969,7 @@ def c09(tier, seed):
     trees = 0
     nodes = 0
     skipped = 0
+    wruns = 0
     keys = set()
     for out, res in core.pmap(judge, outs):
         run.cov["traces_validated_against_impl"] += 1
@@ -958,9 +977,11 @@ def c09(tier, seed):
         evs = [json.loads(l) for l in open(out)]
         for e in evs:
             if "nodes" in e:
+                if e["ev"] == "win":
+                    wruns += len(e["runs"])
                 trees += 1
                 nodes += e["n"]
-                keys.add((e["fen"], tuple(e["pre"]), e["d"]))
+                keys.add((e["ev"], e.get("via", ""), e["fen"], tuple(e["pre"]), e["d"]))
                 if len(run.cov["samples"]) < 4 and e["n"] > 50:
                     run.sample({"fen": e["fen"], "prefix": e["pre"], "depth": e["d"], "tree_nodes": e["n"], "engine_runs": e["runs"]})
             else:
@@ -970,7 +991,10 @@ def c09(tier, seed):
                 run.notes.append("tree skipped: " + f["w"])
             elif f["p"] in ("C09", "PANIC"):
                 dd = f["d"] or {}
-                run.violation(f, {"driver": "tree", "case": {"fen": dd.get("fen"), "pre": dd.get("pre", []), "d": dd.get("d"), "orders": 4, "seed": seed}})
+                case = {"fen": dd.get("fen"), "pre": dd.get("pre", []), "d": dd.get("d"), "orders": 4, "seed": seed}
+                if "alpha" in dd:
+                    case.update({"win": dd.get("win"), "illegal": dd.get("illegal"), "seed": dd.get("seed")})
+                run.violation(f, {"driver": "tree", "case": case})
     # the reference evaluation is itself a TLC run: count its states (one per tree)
     run.cov["states"] += run.cov["events_validated"]
     run.cov["transitions"] += run.cov["events_validated"]
@@ -978,10 +1002,14 @@ def c09(tier, seed):
     run.cov["distinct_nontrivial"] = len(keys)
     run.cov["tree_nodes_evaluated_by_tlc"] = nodes
     run.cov["cases_skipped_too_large_or_trivial"] = skipped
+    run.cov["window_cases"] = nwin_cases
+    run.cov["window_searches_judged"] = wruns
     run.cov["rule"] = ("one case = (position, depth): the full tree is dumped from the real engine (<= 60000 nodes, else skipped), the real "
                        "search is run table-less with a fresh and with randomly pre-filled history tables (3-4 ordering states), and TLC "
                        "evaluates RefSearch!RefValue on the tree; trees with a moveless capture-extension node and roots with <= 1 move are "
-                       "skipped; distinct = distinct (position, depth)")
+                       "skipped; window cases call the windowed search as an interior node (depth 0-3) with ~10 windows each - null and wide, "
+                       "around the static and the searched value up to +-2600 - on the position or on the positions after each illegal "
+                       "pseudo-move (king en prise), judged by RefSearch!Contract; distinct = distinct (kind, position, depth)")
     run.assumptions += ["numeric equality of two pure functions: TLC is the independent evaluator of the transcribed reference; depth <= 4 on sparse "
                         "material, <= 2 on rich positions", "mate-range scores are compared after clamping to +-15000"]
     shutil.rmtree(d, ignore_errors=True)
